@@ -30,6 +30,8 @@ ITEMS = {
     "flag_masks": "flag Mask : uint32 { LOW = 0x0000FFFF, HIGH = 0xFFFF0000 };",
     "enum_alias": "enum Dup { D1 = 1, D2 = 1, D3 = 2 };",
     "anon_enum": "enum { AA = 1, BB };",
+    "anon_flag": "flag { PERM_R = 1, PERM_W = 2, PERM_RW = 3 };",
+    "anon_enum_typed": "enum : uint8 { TA = 200, TB };",
     "typedef_scalar": "typedef uint16 word; typedef word word2; struct L { word w; word2 w2; };",
     "typedef_struct": "typedef struct _M { uint8 a; } M, M2;",
     "typedef_anon_struct": "typedef struct { uint8 a; } N;",
@@ -310,7 +312,7 @@ LEGACY = {
     "scalar_typedef": "typedef uint16 LWORD;\n",
     "user": "struct USER {\n _SECTION first;\n SECTION second;\n VI v[2];\n LE e;\n LWORD w;\n};\n",
 }
-FILE_CORE = ["struct", "nested_named", "inline_named", "anon_member", "enum", "typedef_struct", "typedef_anon_struct2", "typedef_array", "consts", "union_in_struct", "anon_enum", "flag"]
+FILE_CORE = ["struct", "nested_named", "inline_named", "anon_member", "enum", "typedef_struct", "typedef_anon_struct2", "typedef_array", "consts", "union_in_struct", "anon_enum", "flag", "anon_flag", "arrays", "ptrs"]
 
 
 def legacy_sets():
